@@ -15,7 +15,11 @@ META = dict(
           "TwoPointLinearDamper, TwoPointConstantForce, ConstantForce, ConstantTorque, MobilityLinearSpring/Damper/ConstantForce/LinearStop (piecewise law, "
           "every region), UniformGravity and Gravity (incl. immune bodies), with the matter API replaced by its kinematic contract; plus the class invariant "
           "'an element whose force is cached until Position is invalidated keeps its parameters in variables that invalidate Position or earlier' on every "
-          "ForceImpl subclass (CBMC contracts), which is what makes parameter changes take effect at the next realization for cached elements."),
+          "ForceImpl subclass (CBMC contracts), which is what makes parameter changes take effect at the next realization for cached elements. "
+          "Force::Gravity, which does its own lazy caching with manual invalidation and precalculated zeroes, has that protocol under CBMC function/loop contracts "
+          "for any number of bodies: realizeTopology establishes, every State-based setter preserves, and ensureForceCacheValid/getBodyForces/getPotentialEnergy/calcForce "
+          "rely on the invariant 'excluded bodies and g==0 hold exact zeroes; a valid cache holds the documented value of the current g, d, z, exclusions' "
+          "(force values abstracted by tags)."),
     note=("Assumes real arithmetic and the mocked matter/State API contracts listed in the evidence; trusts z3/cvc5, CBMC, transliterator/extractor rules. "
           "LinearBushing, Thermostat, DiscreteForces, Custom, CableSpring and enable/exclusion flags are not covered."),
     technique="symbolic execution of transliterated real code over the reals + SMT (z3 QF_NRA); CBMC contracts for the caching class invariant",
@@ -41,18 +45,31 @@ def main(ctx, only_b=False):
             ctx.not_decided.append("force-caching class invariant (part_c38_cache module not present)")
         except ExtractionError as e:
             ctx.undecide("extraction (cache invariant): %s" % e)
+        try:
+            part = importlib.import_module("part_c38_gravity")
+            r = part.run(ctx)
+            if r:
+                replayers.append(r)
+                # the clause part_c38_cache leaves open is what this part decides
+                ctx.not_decided = [x for x in ctx.not_decided if "manage their own lazy cache" not in x]
+        except ImportError:
+            ctx.not_decided.append("Force::Gravity own lazy caching (part_c38_gravity module not present)")
+        except ExtractionError as e:
+            ctx.undecide("extraction (gravity caching): %s" % e)
     ctx.checker_cmds.append("z3 (python API, QF_NRA); SMT-LIB files in out/C38/smt2")
     ctx.trust("z3 4.x / cvc5 1.0 (QF_NRA)"); ctx.trust("tools/translit.py rule table (logged) and tools/symlib.py shim")
     ctx.assume("machine arithmetic treated as mathematical (reals)")
     for a in FL.world_assumptions():
         ctx.assume(a)
     ctx.not_decided += ["LinearBushing (Euler-angle inference), Thermostat, DiscreteForces, MobilityDiscreteForce, Custom, CableSpring",
-                        "enable/disable flags and Gravity exclusion changes between realizations (only the parameter-variable stage invariant is checked)"]
+                        "enable/disable flags (Force::setDisabled) between realizations"]
     ctx.explanation = "%d functions under contract; %d obligations." % (len(ctx.functions), len(ctx.obligations))
     def rp(ob):
-        for r in replayers:
-            if ob.unit.startswith("forcecache"):
-                return r(ob)
+        if ob.unit.startswith("forcecache") or ob.unit.startswith("gravity."):
+            for r in replayers:          # each part's replayer answers ({}, None) for units that are not its own
+                rep, ok = r(ob)
+                if rep or ok is not None:
+                    return rep, ok
         return replay(ctx, ob)
     return ctx.finish(replayer=rp)
 
